@@ -14,7 +14,16 @@ fn handle(line: &str) -> String {
     if line.starts_with("client ") {
         return client::run_client(line);
     }
-    let parts: Vec<&str> = line.split_whitespace().collect();
+    let mut parts: Vec<&str> = line.split_whitespace().collect();
+    // `seq@K` / `wf@K`: the same operation with every client read limited to K bytes
+    let mut max_read = 0usize;
+    if let Some(first) = parts.first().copied() {
+        if let Some((op, k)) = first.split_once('@') {
+            max_read = k.parse().unwrap_or(0);
+            parts[0] = op;
+        }
+    }
+    seq::MAX_READ.store(max_read, std::sync::atomic::Ordering::Relaxed);
     match parts.as_slice() {
         ["len.ser", style, n] => match n.parse::<usize>() {
             Ok(n) => codec::op_len_ser(style, n),
